@@ -48,9 +48,9 @@ def run(tier, seed):
                 if r:
                     recipes.append(r)
     ac.validate(run, "assemblies", recipes)
-    if not q:      # canonical assemblies of real registry plasmids (kb-size, annotated)
+    if True:       # canonical assemblies of real registry plasmids (kb-size, annotated)
         from . import registry_asm
-        rr = registry_asm.assembly_recipes(rng, 8)
+        rr = registry_asm.assembly_recipes(rng, 2 if q else 16)
         run.extra["registry_assemblies"] = len(rr)
         if rr:
             ac.validate(run, "registry-assemblies", rr)
